@@ -1252,10 +1252,13 @@ where
     use std::io::Write;
     let text = std::fs::read_to_string(path).expect("script file");
     let stdout = std::io::stdout();
-    let mut w = std::io::BufWriter::new(stdout.lock());
+    let mut w = stdout.lock();
     for line in text.lines() {
         let o = run_script::<A>(line);
+        // one line per script, flushed: if the implementation crashes the process (undefined
+        // behaviour), the driver knows exactly which script did it
         writeln!(w, "{o}").unwrap();
+        w.flush().unwrap();
     }
 }
 
